@@ -556,6 +556,20 @@ pub fn any_color() -> BoxedStrategy<ColorSpec> {
     .boxed()
 }
 
+/// Colours for setter HISTORIES: mostly a palette of five (the two defaults among them), so that a value set on one
+/// option often equals the value another option holds at that moment; otherwise `any_color`.
+pub fn palette_color() -> BoxedStrategy<ColorSpec> {
+    prop_oneof![
+        2 => Just(ColorSpec::Rgb([255, 255, 255])),
+        2 => Just(ColorSpec::Rgb([0, 0, 0])),
+        1 => Just(ColorSpec::Rgb([200, 30, 30])),
+        1 => Just(ColorSpec::Rgba([255, 255, 255, 255])),
+        1 => Just(ColorSpec::Rgba([30, 30, 200, 128])),
+        3 => any_color(),
+    ]
+    .boxed()
+}
+
 /// Image references: URLs, data URIs, paths; printable ASCII and non-ASCII text with the XML-special
 /// characters & < > " ' forced in. No control characters (XML cannot carry them).
 pub fn image_string() -> BoxedStrategy<String> {
